@@ -75,7 +75,7 @@ func main() {
 			"`seq` = 25-60 sequential operations incl. bursts of concurrent Resolves, `conc` = 2-8 holder goroutines + a chaos goroutine; every case ends with the quiescence check (3) and a re-resolve (4). "+
 			"non-trivial = a holder read correct bytes AFTER its layer's cache entry expired / was evicted by another holder's Close / was re-resolved because of a failing connectivity check / was refreshed, while it still held the layer, "+
 			"and the quiescence check ran over >=1 resolved layer; distinct by configuration + executed operation list",
-		20, 200, body)
+		20, 150, body)
 }
 
 func body(r *vf.Run) {
@@ -112,10 +112,10 @@ func top(r *vf.Run) {
 			bs = append(bs, batch{stage, race, f, t})
 		}
 	}
-	add("seq", false, r.N(36, 400), r.N(36, 100))
-	add("conc", true, r.N(12, 100), r.N(12, 50))
-	add("seq", true, r.N(8, 60), r.N(8, 30))
-	add("conc", false, r.N(24, 240), r.N(24, 120))
+	add("seq", false, r.N(36, 280), r.N(36, 70))
+	add("conc", true, r.N(12, 70), r.N(12, 35))
+	add("seq", true, r.N(8, 40), r.N(8, 20))
+	add("conc", false, r.N(24, 170), r.N(24, 85))
 
 	// the layer pool is a function of VERIF_SEED only; built once, handed to the children
 	poolPath = filepath.Join(r.Scratch, "pool.gob")
